@@ -78,7 +78,7 @@ impl Check for LimitSessions {
         for _ in 0..n {
             let burst = if rng.chance(1, 3) { 1u64 } else { 0 };
             let i = rng.below(n_nodes as u64);
-            match rng.weighted(&[40, 16, 8, 5, 7, 4]) {
+            match rng.weighted(&[40, 16, 8, 5, 7, 4, 5]) {
                 0 => {
                     let role = Role::from_u(nodes[i as usize].i("role", 0) as u64);
                     let spec = gen_rspec(&mut rng, role, asn_for(role, i as usize));
@@ -92,6 +92,7 @@ impl Check for LimitSessions {
                     let first = rng.below(5);
                     ops.push(jarr!["bulk", i, burst, rng.below(2), first, rng.range(2, 4), spec.to_json()]);
                 }
+                6 => ops.push(jarr!["pol", i, burst, rng.coin()]),
                 3 => ops.push(jarr!["down", i, burst]),
                 4 => ops.push(jarr!["up", i, burst]),
                 _ => ops.push(jarr!["wait", 0u64, 0u64, *rng.pick(&[100u64, 3000, 35_000])]),
@@ -110,7 +111,7 @@ impl Check for LimitSessions {
 
     fn info(&self) -> CheckInfo {
         CheckInfo {
-            rule: "1-2 real sessions (eBGP / iBGP, optional add-path receive) with a per-family prefix limit of 1, 2, 3 or 5 (one in five without), an optional import policy that rejects one prefix per family; ops announce / replace / withdraw one prefix (path ids 0-2), announce 2-4 prefixes in one UPDATE, drop and reconnect, waits, each optionally inside a burst that is not allowed to settle. Reference per session: the set of distinct prefixes announced and not withdrawn. At quiescence: ListPeer's received / accepted per family and GetTable's destinations / paths / accepted equal a recount of the RIB; a session whose set ever exceeded the maximum has received NOTIFICATION Cease / maximum number of prefixes reached, is closed and left no route; a session that never exceeded it has received no such NOTIFICATION and holds exactly its set. non-trivial = a session came within one prefix of its limit".into(),
+            rule: "1-2 real sessions (eBGP / iBGP, optional add-path receive) with a per-family prefix limit of 1, 2, 3 or 5 (one in five without), an optional import policy that rejects one prefix per family; ops announce / replace / withdraw one prefix (path ids 0-2), announce 2-4 prefixes in one UPDATE, drop and reconnect, the import policy switched on / off with a soft reset IN of every peer, waits, each optionally inside a burst that is not allowed to settle. Reference per session: the set of distinct prefixes announced and not withdrawn. At quiescence: ListPeer's received / accepted per family and GetTable's destinations / paths / accepted equal a recount of the RIB; a session whose set ever exceeded the maximum has received NOTIFICATION Cease / maximum number of prefixes reached, is closed and left no route; a session that never exceeded it has received no such NOTIFICATION and holds exactly its set. non-trivial = a session came within one prefix of its limit".into(),
             components_real: vec!["accept_connection (per-session counters), PeerSession::{rx_update, handle_prefix_limit}, TableManager::{insert_route, remove_route, unregister_peer, collect_peer_stats, table_state}, table::Table::{insert, remove, drop, peer_stats, state}".into(), "GrpcService::{list_peer, get_table}, PeerView::update_stats and the conversion to api::Peer".into()],
             components_stubbed: vec!["TCP, clock, the peers".into()],
             assumptions: vec!["the limit counts the distinct prefixes a session has announced, whether or not import policy accepts them (as the per-session counter of the table does); the statement's bound on accepted prefixes follows from it".into()],
@@ -235,6 +236,17 @@ async fn run(case: Json, tol: Tolerate) -> Outcome {
                     t.nodes[i].spk.notifications.clear();
                     out.hit("fault.session-fin");
                 }
+            }
+            "pol" => {
+                // the operator switches the import policy on or off and soft-resets every peer inbound:
+                // accepted counts change, received counts and the limit counters do not
+                let on = op.at(3).as_bool();
+                t.w.tables.import_policy.store(if on { Some(import_policy()) } else { None });
+                for k in 0..n {
+                    let req = api::ResetPeerRequest { address: t.nodes[k].cfg.addr.to_string(), soft: true, direction: api::reset_peer_request::Direction::In as i32, ..Default::default() };
+                    let _ = t.w.grpc.reset_peer(tonic::Request::new(req)).await;
+                }
+                out.hit("op.import-policy-switched+soft-reset-in");
             }
             "wait" => {
                 t.advance(op.at(3).as_u64()).await;
